@@ -64,7 +64,7 @@ Running == ~done /\ ctl # <<>> /\ ret.k # "bug"
 LitRef == /\ Running /\ Top.ph = "start" /\ Top.n.op \in {"lit", "ref"}
           /\ Emit(<<>>)
           /\ LET n == Top.n
-                 m == IF n.op = "lit" THEN [s |-> n.s, t |-> n.t, ci |-> G.ci, fs |-> n.fs] ELSE [s |-> "", t |-> n.t, ci |-> FALSE, fs |-> ""]
+                 m == IF n.op = "lit" THEN [s |-> n.s, t |-> n.t, ci |-> CiSet(G), fs |-> n.fs] ELSE [s |-> "", t |-> n.t, ci |-> {}, fs |-> ""]
                  j == PeekAnyFrom(Env, C.st.raw, m)
              IN IF Matches(Toks[j], m)
                 THEN Finish(SetTop(ctxs, [C EXCEPT !.st = FastForward(Env, C.st, j)]), log, Ret("ok", <<[s |-> Toks[j].v]>>, TRUE))
